@@ -234,8 +234,11 @@ type rtDelivery struct {
 }
 
 type rtRun struct {
-	mirrorBad                 []string // configs whose nested section disagrees with their slots
-	byDone                    bool     // the schedule ended by every source calling Done, not by cancelling
+	mirrorBad                 []string     // configs whose nested section disagrees with their slots
+	byDone                    bool         // the schedule ended by every source calling Done, not by cancelling
+	monBlockedAt              string       // the monitor was found blocked somewhere else than in its top-level select
+	doneOK                    map[int]bool // sources whose Done call returned nil
+	monAfterAllDone           string       // the monitor came back to its select after every source's Done had been accepted
 	c                         *Ctx
 	nsrc                      int
 	params                    dials.Params[RC]
